@@ -101,17 +101,34 @@ func BuildParser(names []string) url.Parser {
 	if len(names) == 1 && names[0] == "url.NewParser()" {
 		return url.NewParser()
 	}
-	var opts []url.ParserOption
-	onlyURL := true
+	// The option list is passed the way a caller holding a []url.ParserOption passes it (New(list...)), with the
+	// canonicalizer's own options in front of the url options (the relative order inside each kind, which decides
+	// "last one wins" conflicts, is kept), and the profile is built TWICE from the same list: constructing a
+	// profile must not consume or rearrange the caller's list. The second profile is the one that is checked.
+	var canon, plain []url.ParserOption
 	for _, n := range names {
 		o := optByName(n)
 		if o == nil {
 			panic("unknown option " + n)
 		}
-		opts = append(opts, o.Mk())
+		if isCanonOption(n) {
+			canon = append(canon, o.Mk())
+		} else {
+			plain = append(plain, o.Mk())
+		}
 	}
-	_ = onlyURL
+	opts := append(canon, plain...)
+	_ = canonicalizer.New(opts...)
 	return canonicalizer.New(opts...)
+}
+
+func isCanonOption(n string) bool {
+	for _, p := range []string{"RemoveUserInfo", "RemovePort", "RemoveFragment", "RepeatedPercentDecoding", "DefaultScheme(", "SortQuery("} {
+		if strings.HasPrefix(n, p) {
+			return true
+		}
+	}
+	return false
 }
 
 func cfgName(names []string) string {
